@@ -25,6 +25,8 @@ def ext_index(t, n, lo_mode, hi_mode):
     if 0 <= t < n:
         return ('idx', t)
     mode = lo_mode if t < 0 else hi_mode
+    if not isinstance(mode, str):
+        return ('const', mode)
     if mode == 'symmetric':
         # reflect about the boundary (edge value repeated), period 2n
         r = t % (2 * n)
